@@ -44,15 +44,21 @@ RowOK(r) ==
 
 AllPoints(C) == {INF} \cup {P \in Elem(C.F) \X Elem(C.F) : OnCurve(C, P)}
 
+\* all points of curve k, taken from the rows of its coverage claim (checked to be on the curve and to be as
+\* many as the Euler count says) -- enumerating Elem x Elem is out of reach for the larger GF(q^2)
+ClaimPoints(k) ==
+  LET cl == CHOOSE c \in {Claims[m] : m \in 1..Len(Claims)} : c.c = k /\ c.op = "sub"
+  IN {A(Crv(k), AllRows[j].P) : j \in cl.lo..cl.hi}
 GroupFacts(k) ==
   LET C   == Crv(k)
       K   == CurvesJ[k]
-      pts == AllPoints(C)
+      pts == ClaimPoints(k)
       sub == {P \in pts : SM(C, P, K.r) = INF}
   IN /\ WellFormed(C.F) /\ C.F.p > 3 /\ C.b # Zero(C.F)
      /\ IsPrime(K.r) /\ K.order = K.h * K.r /\ K.h % K.r # 0 /\ K.h > 1 /\ K.order % 2 = 1
      /\ K.heff % K.h = 0 /\ K.heff % K.r # 0
-     /\ Cardinality(pts) = K.order
+     /\ \A Pt \in pts : OnCurve(C, Pt)
+     /\ Cardinality(pts) = K.order /\ CountPoints(C) = K.order
      /\ Cardinality(sub) = K.r
      /\ \E G \in sub : sub = {SM(C, G, n) : n \in 0..(K.r - 1)}             \* cyclic of order r
      /\ \A P \in pts \ sub : SM(C, SM(C, P, K.r), K.h) = INF                 \* cofactor component
@@ -62,7 +68,8 @@ GroupFacts(k) ==
 ClaimOK(c) ==
   LET C == Crv(c.c) idx == c.lo..c.hi IN
   /\ \A j \in idx : AllRows[j].c = c.c /\ AllRows[j].op = c.op
-  /\ {A(C, AllRows[j].P) : j \in idx} = AllPoints(C)
+  /\ LET S == {A(C, AllRows[j].P) : j \in idx} IN
+     (\A Pt \in S : OnCurve(C, Pt)) /\ Cardinality(S) = CountPoints(C)
 
 Init == i = 0
 Next == \/ i = 0 /\ i' \in 1..(IF Stride < Len(Rows) THEN Stride ELSE Len(Rows))
